@@ -1,4 +1,5 @@
 import SqlObjVerif.Lemmas.Tx
+import SqlObjVerif.Lemmas.TxXCommit
 /-!
 # C07 — transactions: invisible until commit, visible after, erased by rollback, refused when finished
 
@@ -389,5 +390,114 @@ example : outs (init true) [.create .P 1 row10, .get .T 1 false, .commit true, .
 -- the witnesses are outside `good` (that is the excluded class)
 example : ¬ GoodHist (init true) witnessCulled := by decide
 example : ¬ GoodHist (init true) witnessParentDetached := by decide
+
+/-! ## The hand model of the `Transaction` methods IS the translated source
+
+`vlib/extractors/pytx.py` translates `Transaction.assertActive / _SO_delete / commit / rollback / _makeObsolete /
+begin / __del__` from /repo's dbconnection.py into PyTx programs on every run (`Extracted/PyTx.lean`);
+`assertActiveX`, `soDeleteX`, `commitX`, … (`Model/TxX.lean`) RUN those programs from `img s lo`, the image of model
+state `s` plus the low-level facts `lo` the model leaves out (`autoCommit`, `debug`, the autocommit mode of the
+low-level connection, the pool count).  The calls into other objects are parameters of the interpreter, stated one
+by one in the header of `Model/TxX.lean` (low-level COMMIT / ROLLBACK, `allIDs()` = ANY list with exactly the ids of
+`Conn.inAllIDs` — `AllIDsSpec` —, `tryGet` / `tryGetByName` = `Conn.tryGet`, `inst.expire()` = `opExpire`, signals
+and debug output without effect, `_setAutoCommit`, `releaseConnection(explicit=True)`, `getConnection`,
+`DBAPI._SO_delete` rebound to the transaction).  Each theorem: the translated method ends in the image of the
+state the hand model's function yields — for ALL states, under the stated hypotheses only:
+* `AllIDsSpec A s.dc s.t` (interface assumption on what `allIDs()` returns in the state at hand);
+* `ConnWF` of the connection whose instances the loop expires (representation invariant: what a cache map refers
+  to has that key) — it holds in every state a `good` history reaches (`C07_translated_rep_reachable`).
+A semantic edit of these methods changes the translated programs and breaks these proofs. -/
+
+open SqlObjVerif.PyTx in
+/-- `Transaction.assertActive()` = `St.refused .T`: AssertionError exactly when obsolete, nothing changes -/
+theorem C07_translated_assertActive_eq_model (A : AllIDs) (s : St) (lo : Low) :
+    assertActiveX A (img s lo) =
+      if s.refused .T then .exc (img s lo) ⟨.assertionError, 0⟩ else .ret (img s lo) .none :=
+  assertActiveX_eq A s lo
+
+open SqlObjVerif.PyTx in
+/-- `Transaction.begin()` = `opBegin`; a low-level connection is checked out and put in manual-commit mode -/
+theorem C07_translated_begin_eq_model (A : AllIDs) (s : St) (lo : Low) :
+    beginX A (img s lo) =
+      if s.obsolete then .ret (img (opBegin s).1 lo.acquire) .none else .exc (img s lo) ⟨.assertionError, 0⟩ :=
+  beginX_eq A s lo
+
+open SqlObjVerif.PyTx in
+/-- `Transaction._makeObsolete()`: obsolete, deleted log emptied; autocommit switched back on iff the connection's
+    `autoCommit` is truthy, the low-level connection released IN EITHER CASE (`Low.release`) -/
+theorem C07_translated_makeObsolete_eq_model (A : AllIDs) (s : St) (lo : Low) (h : s.obsolete = false) :
+    makeObsoleteX A (img s lo) = .ret (img { s with obsolete := true, del := [] } lo.release) .none :=
+  makeObsoleteX_eq A s lo h
+
+open SqlObjVerif.PyTx in
+/-- `Transaction._SO_delete(inst)` = `soDelete`: the id is logged FIRST (also when the transaction is obsolete), then
+    `DBAPI._SO_delete` runs with the transaction as `self` -/
+theorem C07_translated_SO_delete_eq_model (A : AllIDs) (s : St) (lo : Low) (j : Nat) :
+    soDeleteX A (img s lo) j =
+      if s.obsolete then .exc (img (soDelete s j).1 lo) ⟨.assertionError, 0⟩
+      else .ret (img (soDelete s j).1 lo) .none :=
+  soDeleteX_eq A s lo j
+
+/-- … and `soDelete` is the `_SO_delete` part of the hand model's `destroySelf` on the transaction side -/
+theorem C07_translated_SO_delete_in_destroy (s : St) (j : Nat) (hj : j < s.t.n) :
+    opDestroy s .T j = afterSoDelete (soDelete s j) j :=
+  opDestroy_T_eq s j hj
+
+open SqlObjVerif.PyTx in
+/-- `Transaction.rollback()` = `opRollback`: ids collected, low-level ROLLBACK, every transaction-side instance `tryGet`
+    finds expired (`rollbackExpire`), `_makeObsolete` — nothing at all when obsolete -/
+theorem C07_translated_rollback_eq_model (A : AllIDs) (s : St) (hA : AllIDsSpec A s.dc s.t) (lo : Low)
+    (wf : ConnWF s.t) :
+    rollbackX A (img s lo) = .ret (img (opRollback s).1 (if s.obsolete then lo else lo.release)) .none :=
+  rollbackX_eq A s hA lo wf
+
+open SqlObjVerif.PyTx in
+/-- `Transaction.commit(close)` = `opCommit`: low-level COMMIT, then for every (class, id) in the transaction cache's
+    `allIDs()` AND in the deleted log the parent-side instance `tryGetByName` finds is expired (`commitExpire`),
+    `_makeObsolete` iff `close` — nothing at all when obsolete -/
+theorem C07_translated_commit_eq_model (A : AllIDs) (s : St) (hA : AllIDsSpec A s.dc s.t) (lo : Low) (close : Bool)
+    (wf : ConnWF s.p) :
+    commitX A (img s lo) close =
+      .ret (img (opCommit s close).1 (if close && !s.obsolete then lo.release else lo)) .none :=
+  commitX_eq A s hA lo close wf
+
+open SqlObjVerif.PyTx in
+/-- `Transaction.__del__()`: `rollback()` unless obsolete (C08's `collect`) -/
+theorem C07_translated_del_eq_model (A : AllIDs) (s : St) (hA : AllIDsSpec A s.dc s.t) (lo : Low) (wf : ConnWF s.t) :
+    delX A (img s lo) = .ret (img (opRollback s).1 (if s.obsolete then lo else lo.release)) .none :=
+  delX_eq A s hA lo wf
+
+/-- the loops, without the interpreter: expiring what `tryGet` finds, key by key over ANY list (order, repetitions),
+    is the hand model's all-at-once expiry over the set of the list's members -/
+theorem C07_translated_loop_is_set_expiry (c : Conn) (wf : ConnWF c) (dc : Bool) (ks : List Key) :
+    expireKeys dc c ks = expireOn dc c (fun x => ks.contains x) :=
+  expireKeys_eq wf dc ks
+
+/-- the representation invariant holds in every state a `good` history reaches -/
+theorem C07_translated_rep_reachable (dc : Bool) (ops : List Op) (hg : GoodHist (init dc) ops) :
+    ConnWF (run (init dc) ops).p ∧ ConnWF (run (init dc) ops).t :=
+  ⟨(run_inv (Inv.init dc) ops hg).wfP, (run_inv (Inv.init dc) ops hg).wfT⟩
+
+/-- non-vacuity of the interface assumption: with empty caches every `allIDs()` is empty … -/
+example (dc : Bool) : AllIDsSpec ⟨fun _ => [], fun _ _ _ => []⟩ dc (init dc).t :=
+  ⟨fun _ _ h => by simp at h, fun k => by simp [init, Conn.empty, Conn.inAllIDs]⟩
+/-- … and with one instance of key 2007 (class 2, id 7) in the strong map, `allIDs()` of class 2 is `[7]` -/
+example : AllIDsSpec ⟨fun _ => [2], fun _ _ c => if c = 2 then [7] else []⟩ true
+    { Conn.empty with strong := fun k => if k = 2007 then some 0 else none, n := 1 } := by
+  have h7 : ∀ k : Nat, (k / 1000 = 2 ∧ k % 1000 = 7) ↔ k = 2007 := fun k => by omega
+  refine ⟨fun c i h => ?_, fun k => ?_⟩
+  · simp only at h
+    split at h
+    · simp at h; omega
+    · simp at h
+  · by_cases h : k = 2007
+    · subst h; simp [Conn.inAllIDs, Conn.empty, clsOf, idOf]
+    · have hn : ¬ (k / 1000 = 2 ∧ k % 1000 = 7) := fun hh => h ((h7 k).1 hh)
+      simp only [Conn.inAllIDs, Conn.empty, clsOf, idOf, List.mem_singleton, h, if_false]
+      by_cases h2 : k / 1000 = 2
+      · have : ¬ k % 1000 = 7 := fun h3 => hn ⟨h2, h3⟩
+        simp [h2, this]
+      · simp [h2]
+example : ConnWF (init true).p ∧ ConnWF (init true).t := ⟨ConnWF.empty, ConnWF.empty⟩
 
 end SqlObjVerif.Tx
